@@ -422,6 +422,15 @@ def run_c15(pid):
                 bps = max(1, min(32, p["bps"]))
                 jobs.append(job_of(p, fe, 40, 40 * upf_of(fe, ch, bps), tag="core-declared"))
                 jobs.append(job_of(p, fe, 40, 7, tag="core-declared"))
+    # window parameters: every f32 is an option value (tiny tapers, NaN, infinities, negative, above 1) x block sizes around the taper length
+    for w in ("tukey:nan", "tukey:inf", "tukey:-inf", "tukey:-1", "tukey:2", "tukey:1e-9", "tukey:0.0001", "tukey:0.124", "tukey:0.125", "tukey:0.13",
+              "tukey:0.999999", "tukey:1", "tukey:0", "tukey:-0", "tukey:3e38", "hann", "rect"):
+        for bs in (16, 17, 31, 4096):
+            p = dict(nominal)
+            p["block_size"] = bs
+            j = job_of(p, rnd.choice(FES), bs + 9, None, tag="window")
+            j["opts"]["window"] = w
+            jobs.append(j)
     # declared totals: boundary values in the front end's unit
     for fe in FES:
         for ch, bps in ((1, 16), (2, 16), (2, 24), (3, 8)):
